@@ -25,7 +25,7 @@ INF = float('inf')
 
 
 def gen_cases(tier, seed):
-    n = {'quick': 6000, 'thorough': 700000}[tier]
+    n = {'quick': 21000, 'thorough': 700000}[tier]
     out = []
     kinds = ['sim', 'sim', 'sim', 'sim', 'builder', 'markov_builder', 'get_infected']
     for k in range(n):
